@@ -1,7 +1,8 @@
 (* Model/Sample.v — stats/sample.go (Sample, Bounds, Sum, Weight, Mean, GeoMean, Variance, Sort,
    Copy) and vec/vec.go, exact arithmetic.  DEFINITIONS ONLY.
    The model describes the repaired behaviour (DESIGN section 6, D4: the weighted incremental
-   Mean/GeoMean skip zero weights). *)
+   Mean/GeoMean skip zero weights; all-zero weights give NaN; a non-positive value that carries
+   weight makes the weighted GeoMean NaN). *)
 From MM Require Import Base.Num Base.GASort.
 Local Open Scope Q_scope.
 
@@ -78,11 +79,13 @@ Fixpoint mean_loop (xs : list Q) (i : nat) (m : Q) : Q :=
   end.
 Definition mean (xs : list Q) : fres := match xs with [] => FNaN | _ => FVal (mean_loop xs 0 0) end.
 
-(* Sample.Mean, weighted (sample.go:127-145, repaired: zero weights are skipped):
-   wsum += w ; m += (x - m) * w / wsum *)
-Fixpoint wmean_loop (ps : list (Q * Q)) (m wsum : Q) : Q :=
+(* Sample.Mean, weighted (sample.go:127-150, repaired: zero weights are skipped; nothing carries weight -> NaN):
+     for i, x := range Xs { w := Weights[i]; if w == 0 { continue }; wsum += w; m += (x - m) * w / wsum }
+     if wsum == 0 { return NaN }; return m
+   the loop returns (m, wsum) *)
+Fixpoint wmean_loop (ps : list (Q * Q)) (m wsum : Q) : Q * Q :=
   match ps with
-  | [] => m
+  | [] => (m, wsum)
   | (x, w) :: t =>
       if Qeq_bool w 0 then wmean_loop t m wsum
       else let wsum' := Qred (wsum + w) in wmean_loop t (Qred (m + (x - m) * w / wsum')) wsum'
@@ -91,7 +94,8 @@ Definition sample_mean (s : sample) : fres :=
   match s_xs s, s_ws s with
   | [], _ => FNaN
   | xs, None => mean xs
-  | xs, Some ws => FVal (wmean_loop (combine xs ws) 0 0)
+  | xs, Some ws => let '(m, wsum) := wmean_loop (combine xs ws) 0 0 in
+                   if Qeq_bool wsum 0 then FNaN else FVal m
   end.
 
 (* Variance (sample.go:219-237), Welford: delta := x - mean; mean += delta/(n+1);
@@ -132,12 +136,18 @@ Fixpoint geo_loop (xs : list Q) (i : nat) (cs : list Q) : option (list Q) :=
   end.
 Definition geomean (xs : list Q) : gres :=
   match xs with [] => GNaN | _ => match geo_loop xs 0 [] with None => GNaN | Some cs => GExp cs end end.
-(* weighted (repaired: zero weights skipped): wsum += w ; m += (lx - m) * w / wsum *)
-Fixpoint wgeo_loop (ps : list (Q * Q)) (cs : list Q) (wsum : Q) : list Q :=
+(* weighted (sample.go:205-227, repaired):
+     for i, x := range Xs { w := Weights[i]; if w == 0 { continue }; if x <= 0 { return NaN }
+                            wsum += w; lx := Log(x); m += (lx - m) * w / wsum }
+     if wsum == 0 { return NaN }; return Exp(m)
+   the zero-weight skip comes BEFORE the x <= 0 guard: a non-positive value that carries no weight is ignored.
+   None = the early NaN return; Some (coefficients, wsum) otherwise *)
+Fixpoint wgeo_loop (ps : list (Q * Q)) (cs : list Q) (wsum : Q) : option (list Q * Q) :=
   match ps with
-  | [] => cs
+  | [] => Some (cs, wsum)
   | (x, w) :: t =>
       if Qeq_bool w 0 then wgeo_loop t (cs ++ [0]) wsum
+      else if Qle_bool x 0 then None
       else let wsum' := Qred (wsum + w) in
            wgeo_loop t (map (fun c => Qred (c - c * w / wsum')) cs ++ [Qred (w / wsum')]) wsum'
   end.
@@ -145,7 +155,10 @@ Definition sample_geomean (s : sample) : gres :=
   match s_xs s, s_ws s with
   | [], _ => GNaN
   | xs, None => geomean xs
-  | xs, Some ws => GExp (wgeo_loop (combine xs ws) [] 0)
+  | xs, Some ws => match wgeo_loop (combine xs ws) [] 0 with
+                   | None => GNaN
+                   | Some (cs, wsum) => if Qeq_bool wsum 0 then GNaN else GExp cs
+                   end
   end.
 
 (* ====================================================================== *)
